@@ -61,6 +61,8 @@ class Oracle:
         return None
 
     def vp_time_ok(self, vp, t):
+        if vp.get("untimed"):
+            return True
         c, e = vp.get("created"), vp.get("expires")
         if c is not None and c > t + self.skew:
             return False
@@ -344,7 +346,7 @@ def run(ctx):
         env["VERIF_REPLAY"] = os.path.abspath(ctx.replay)
     else:
         env["VERIF_CORPUS"] = corpus
-        env["VERIF_WORLDS"] = 900 if ctx.thorough else 90
+        env["VERIF_WORLDS"] = 10000 if ctx.thorough else 400
     rc, log, out = ctx.run_harness(binary, "TestVerifC02", env, timeout=3000)
     if rc != 0:
         ctx.oblige("harness-runs", False, log[-1500:])
